@@ -137,7 +137,7 @@ theorem C27_all_models (W : World) (fuel : Nat) (repo0 repo' : Repo) (rq : Reque
       (∀ m, m ∈ created → has repo0 m.file = false) := by
   rcases load_cases W fuel repo0 repo' rq hfresh h with ⟨_, _, rfl⟩ | ⟨hnew, hl⟩
   · exact ⟨[], by simp, by simp, by simp⟩
-  · obtain ⟨c, hc1, hp, _, _, hn⟩ := loadFile_post W rq.kwargs fuel repo0 rq.file repo' hnew hl
+  · obtain ⟨c, hc1, hp, _, _, hn, _, _⟩ := loadFile_post W rq.kwargs fuel repo0 rq.file repo' hnew hl
     exact ⟨c, hc1, hp, hn⟩
 
 /-- **…including models loaded through imports.**  The main file is in the
@@ -155,7 +155,7 @@ theorem C27_closure (W : World) (fuel : Nat) (repo0 repo' : Repo) (rq : Request)
           ∀ fs, fs ∈ effImports W spec (some rq.kwargs) → ∀ g, g ∈ fs → has repo' g = true := by
   rcases load_cases W fuel repo0 repo' rq hfresh h with ⟨_, hin, rfl⟩ | ⟨hnew, hl⟩
   · exact ⟨hin, fun m hm hn => absurd hm hn⟩
-  · obtain ⟨c, rfl, _, hmain, hcl, _⟩ := loadFile_post W rq.kwargs fuel repo0 rq.file repo' hnew hl
+  · obtain ⟨c, rfl, _, hmain, hcl, _, _, _⟩ := loadFile_post W rq.kwargs fuel repo0 rq.file repo' hnew hl
     refine ⟨hmain, ?_⟩
     intro m hm hn
     rcases List.mem_append.1 hm with hm | hm
@@ -209,6 +209,174 @@ theorem C27_cached_main (W : World) (fuel : Nat) (repo0 : Repo) (rq : Request)
     simpa using hall k hk
   simp [this, hstr, hvia, hin]
 
+/-! ## the exact set of created models -/
+
+/-- **Exactly the reachable files are created, each once.**  `ReachNC W repo0 kw f g`
+(Proofs/ParamsLoad.lean) is defined without any reference to the load machine: `g` is reached
+from `f` along the imports the active provider follows (`importsOf`, read with the parameters of
+the call), through files that are not cached in `repo0`.  After a successful load the repository
+is the old one followed by `created`, where
+* every created model exposes exactly the keyword arguments of the call,
+* no cached file is created again and no file is created twice (`Nodup`),
+* the created files are *exactly* the files reachable from the main file — so neither a
+  reachable file is left out (or left without parameters) nor an unrelated file loaded.
+Holds for every world, provider kind, repository, keyword list and fuel. -/
+theorem C27_created_exact (W : World) (fuel : Nat) (repo0 repo' : Repo) (rq : Request)
+    (hfresh : rq.viaFile = false → has repo0 rq.file = false)
+    (h : load Gen.checkParamsBody W fuel repo0 rq = .ok repo') :
+    ∃ created, repo' = repo0 ++ created ∧
+      (∀ m, m ∈ created → m.params = some rq.kwargs) ∧
+      (∀ m, m ∈ created → has repo0 m.file = false) ∧
+      (created.map (·.file)).Nodup ∧
+      ∀ g, g ∈ created.map (·.file) ↔ ReachNC W repo0 rq.kwargs rq.file g := by
+  rcases load_cases W fuel repo0 repo' rq hfresh h with ⟨_, hin, rfl⟩ | ⟨hnew, hl⟩
+  · refine ⟨[], by simp, by simp, by simp, by simp, ?_⟩
+    intro g
+    constructor
+    · intro hg; simp at hg
+    · intro hr
+      have := hr.src_new
+      rw [hin] at this
+      exact absurd this (by simp)
+  · obtain ⟨c, rfl, hp, hmain, hcl, hn, hnd, hre⟩ := loadFile_post W rq.kwargs fuel repo0 rq.file repo' hnew hl
+    refine ⟨c, rfl, hp, hn, hnd, ?_⟩
+    have hin : ∀ x, has (repo0 ++ c) x = true → has repo0 x = false → x ∈ c.map (·.file) := by
+      intro x hx hx0
+      rw [has_append, hx0, Bool.false_or] at hx
+      exact (has_files c x).1 hx
+    intro g
+    constructor
+    · intro hg
+      obtain ⟨m, hm, rfl⟩ := List.mem_map.1 hg
+      exact hre m hm
+    · intro hr
+      induction hr with
+      | refl hf => exact hin _ hmain hf
+      | step _ hi hnew' ih =>
+        obtain ⟨m, hm, e⟩ := List.mem_map.1 ih
+        obtain ⟨spec, hs, hall⟩ := hcl m hm
+        rw [e] at hs
+        simp only [importsOf, hs, List.mem_flatten] at hi
+        obtain ⟨fs, hfs, hx⟩ := hi
+        exact hin _ (hall fs hfs _ hx) hnew'
+
+/-- the same in terms of the two repositories only (the reviewer's wording): a file has a model
+that is in the repository after the load and was not there before iff it is reachable from the
+main file through files that were not cached -/
+theorem C27_created_iff (W : World) (fuel : Nat) (repo0 repo' : Repo) (rq : Request)
+    (hfresh : rq.viaFile = false → has repo0 rq.file = false)
+    (h : load Gen.checkParamsBody W fuel repo0 rq = .ok repo') (g : Nat) :
+    (∃ m, m ∈ repo' ∧ m ∉ repo0 ∧ m.file = g) ↔ ReachNC W repo0 rq.kwargs rq.file g := by
+  obtain ⟨c, rfl, _, hn, _, hex⟩ := C27_created_exact W fuel repo0 repo' rq hfresh h
+  rw [← hex g, List.mem_map]
+  constructor
+  · rintro ⟨m, hm, hm0, e⟩
+    rcases List.mem_append.1 hm with hm | hm
+    · exact absurd hm hm0
+    · exact ⟨m, hm, e⟩
+  · rintro ⟨m, hm, e⟩
+    refine ⟨m, List.mem_append_right _ hm, ?_, e⟩
+    intro hm0
+    have h1 : has repo0 m.file = true := (has_iff repo0 _).2 ⟨m, hm0, rfl⟩
+    rw [hn m hm] at h1
+    exact absurd h1 (by simp)
+
+/-- **Transitive closure** (`C27_closure` along whole import paths): every file reachable from
+the main file through non-cached files, and every file such a file imports (cached or not), has a
+model in the repository; if it was not cached, that model carries the parameters of the call. -/
+theorem C27_closure_trans (W : World) (fuel : Nat) (repo0 repo' : Repo) (rq : Request)
+    (hfresh : rq.viaFile = false → has repo0 rq.file = false)
+    (h : load Gen.checkParamsBody W fuel repo0 rq = .ok repo') (g : Nat)
+    (hr : ReachNC W repo0 rq.kwargs rq.file g) :
+    (∃ m, m ∈ repo' ∧ m.file = g ∧ m.params = some rq.kwargs) ∧
+      ∀ x, x ∈ importsOf W rq.kwargs g →
+        ∃ m, m ∈ repo' ∧ m.file = x ∧ (has repo0 x = false → m.params = some rq.kwargs) := by
+  obtain ⟨c, rfl, hp, hn, _, hex⟩ := C27_created_exact W fuel repo0 repo' rq hfresh h
+  have hcre : ∀ y, ReachNC W repo0 rq.kwargs rq.file y →
+      ∃ m, m ∈ repo0 ++ c ∧ m.file = y ∧ m.params = some rq.kwargs := by
+    intro y hy
+    obtain ⟨m, hm, e⟩ := List.mem_map.1 ((hex y).2 hy)
+    exact ⟨m, List.mem_append_right _ hm, e, hp m hm⟩
+  refine ⟨hcre g hr, ?_⟩
+  intro x hx
+  cases hx0 : has repo0 x with
+  | false =>
+    obtain ⟨m, hm, e, hpm⟩ := hcre x (.step hr hx hx0)
+    exact ⟨m, hm, e, fun _ => hpm⟩
+  | true =>
+    obtain ⟨m, hm, e⟩ := (has_iff repo0 x).1 hx0
+    exact ⟨m, List.mem_append_left _ hm, e, fun hc => absurd hc (by simp)⟩
+
+/-! ## the assert of `load_model`, the errors of a load -/
+
+/-- **`assert model_params is not None` never fails** in a load started by `model_from_str` /
+`model_from_file`: whenever a provider follows the imports of a model, that model's
+`_tx_model_params` has been set (the `noParams` branch of the model is unreachable). -/
+theorem C27_assert_holds (W : World) (fuel : Nat) (repo0 : Repo) (rq : Request) :
+    load Gen.checkParamsBody W fuel repo0 rq ≠ .error .noParams := by
+  intro h
+  unfold load at h
+  cases hf : runFor Gen.checkParamsBody rq.defs (rq.kwargs.map (·.1)) with
+  | some k => simp [hf] at h
+  | none =>
+    simp only [hf] at h
+    by_cases hs : rq.isStr = true
+    · simp only [hs, Bool.not_true, Bool.false_eq_true, if_false] at h
+      by_cases hc : (rq.viaFile && has repo0 rq.file) = true
+      · simp [hc] at h
+      · simp only [hc, Bool.false_eq_true, if_false] at h
+        rcases loadFile_errs W fuel repo0 rq.file rq.kwargs _ h with e | ⟨_, e⟩ | ⟨_, e⟩ | e <;> cases e
+    · simp [hs] at h
+
+/-- **Acceptance, all cases** (generalises `C27_accept` and `C27_cached_main`: no hypothesis on the
+kind of entry point or on the cache): when every keyword is declared, the parameter check is
+invisible — the load is what it would be without the check. -/
+theorem C27_accept_total (W : World) (fuel : Nat) (repo0 : Repo) (rq : Request)
+    (hall : ∀ k, k ∈ rq.kwargs.map (·.1) → k ∈ rq.defs) :
+    load Gen.checkParamsBody W fuel repo0 rq =
+      if !rq.isStr then .error .notString
+      else if rq.viaFile && has repo0 rq.file then .ok repo0
+      else loadFile W fuel repo0 rq.file rq.kwargs := by
+  have hcp := C27_check_params rq.defs (rq.kwargs.map (·.1))
+  unfold checkParams at hcp
+  unfold load
+  have : runFor Gen.checkParamsBody rq.defs (rq.kwargs.map (·.1)) = none := by
+    rw [hcp, List.find?_eq_none]
+    intro k hk
+    simpa using hall k hk
+  simp only [this]
+
+/-! ## the result does not depend on the fuel -/
+
+/-- **More fuel changes nothing.**  Once a load did not stop for lack of fuel, every larger fuel
+value gives the very same result (repository or error), for every world — no well-formedness
+needed. -/
+theorem C27_fuel_mono (W : World) (n m : Nat) (hnm : n ≤ m) (repo0 : Repo) (rq : Request)
+    (hne : load Gen.checkParamsBody W n repo0 rq ≠ .error .fuel) :
+    load Gen.checkParamsBody W m repo0 rq = load Gen.checkParamsBody W n repo0 rq := by
+  unfold load at hne ⊢
+  cases hf : runFor Gen.checkParamsBody rq.defs (rq.kwargs.map (·.1)) with
+  | some k => rfl
+  | none =>
+    simp only [hf] at hne ⊢
+    by_cases hs : rq.isStr = true
+    · simp only [hs, Bool.not_true, Bool.false_eq_true, if_false] at hne ⊢
+      by_cases hc : (rq.viaFile && has repo0 rq.file) = true
+      · simp [hc]
+      · simp only [hc, Bool.false_eq_true, if_false] at hne ⊢
+        exact loadFile_more W n m hnm repo0 rq.file rq.kwargs hne
+    · simp [hs]
+
+/-- **The load is a function of the world**: with at least one unit of fuel per file the result
+is the same for all fuel values (the fuel is an artefact of the model, not an input). -/
+theorem C27_fuel_indep (W : World) (hW : W.WF) (fuel fuel' : Nat) (repo0 : Repo) (rq : Request)
+    (hfile : rq.file < W.files.length)
+    (hfresh : rq.viaFile = false → has repo0 rq.file = false)
+    (h1 : W.files.length ≤ fuel) (h2 : W.files.length ≤ fuel') :
+    load Gen.checkParamsBody W fuel repo0 rq = load Gen.checkParamsBody W fuel' repo0 rq := by
+  have hne := C27_terminates W hW W.files.length repo0 rq hfile hfresh (Nat.le_refl _)
+  rw [C27_fuel_mono W _ fuel h1 repo0 rq hne, C27_fuel_mono W _ fuel' h2 repo0 rq hne]
+
 /-! ## non-vacuity: a three-file world with an import cycle and a cached model -/
 
 /-- f0 imports f1 and f2; f1 imports f0 (cycle) and f2; f2 imports itself -/
@@ -228,5 +396,18 @@ example : exWorld.WF := by
   refine ⟨?_, ?_⟩
   · decide
   · intro rel hit h; simp [exWorld] at h
+
+/-! non-vacuity of `ReachNC`: with file 2 cached, file 1 is reached from file 0, file 2 is not
+(and is not created: second `rfl` example above) -/
+example : ReachNC exWorld [⟨2, some []⟩] [("p", "1")] 0 1 := .step (.refl rfl) (by decide) rfl
+example : ¬ ReachNC exWorld [⟨2, some []⟩] [("p", "1")] 0 2 := fun h => by
+  have := h.tgt_new
+  simp [has] at this
+/-- nothing is reachable from a cached main file -/
+example (g : Nat) : ¬ ReachNC exWorld [⟨0, some []⟩] [("p", "1")] 0 g := fun h => by
+  have := h.src_new
+  simp [has] at this
+/- `hall` of `C27_accept_total` -/
+example : ∀ k, k ∈ (exRq [("p", "1")]).kwargs.map (·.1) → k ∈ (exRq [("p", "1")]).defs := by decide
 
 end ParamsLoad
